@@ -37,7 +37,7 @@ struct in_gen32 IN;
 unsigned long long verif_k;
 int verif_old_bit;
 unsigned long long verif_g0, verif_g1, verif_g2, verif_g3, verif_g4, verif_g5, verif_g6, verif_g7;
-const unsigned char *verif_p0, *verif_p1;
+const unsigned char *verif_p0, *verif_p1, *verif_p2, *verif_p3;	/* p1 / p2: ghosts of the ext2fs_mem_is_zero contract (specs/c16_ba_mem_is_zero.h) */
 
 #define G_FWD verif_g2
 #define G_FWD_OP verif_g3
